@@ -46,8 +46,9 @@ func fedTypes(f *ast.File) map[string]map[string]fedField {
 				var ff fedField
 				switch t := fl.Type.(type) {
 				case *ast.StarExpr:
+					ff = fedField{ptr: true}
 					if id, ok := t.X.(*ast.Ident); ok {
-						ff = fedField{ptr: true, typ: id.Name}
+						ff.typ = id.Name
 					}
 				case *ast.ArrayType:
 					if se, ok := t.Elt.(*ast.StarExpr); ok {
@@ -89,6 +90,7 @@ type fedWalker struct {
 	root   string    // name of the *ServerMessage parameter
 	derefs map[fedDeref]bool
 	notes  []string
+	depth  int // nesting of callee summaries
 }
 
 type fedScope struct {
@@ -96,10 +98,19 @@ type fedScope struct {
 	guarded            map[string]bool   // paths known non-nil
 	alias              map[string]string // local name -> path (pointer sub-object)
 	elem               map[string]string // range variable -> path of the slice it ranges over
+	// Values the handler builds itself from peer-controlled raw JSON (`var details RoomErrorDetails;
+	// json.Unmarshal(msg.Error.Details, &details)`): local variable -> root of its paths, "@T" for a value of
+	// struct type T, "@*T" for a pointer to T that may be nil (pointer parameter of a helper).  No validation
+	// table covers their pointer members, so every unguarded dereference below such a root is reported.
+	locals map[string]string
 }
 
 func (s fedScope) clone() fedScope {
-	n := fedScope{typ: s.typ, target: s.target, etype: s.etype, guarded: map[string]bool{}, alias: map[string]string{}, elem: map[string]string{}}
+	n := fedScope{typ: s.typ, target: s.target, etype: s.etype, guarded: map[string]bool{}, alias: map[string]string{}, elem: map[string]string{},
+		locals: map[string]string{}}
+	for k, v := range s.locals {
+		n.locals[k] = v
+	}
 	for k, v := range s.guarded {
 		n.guarded[k] = v
 	}
@@ -123,6 +134,9 @@ func (w *fedWalker) chain(s fedScope, e ast.Expr) ([]string, bool) {
 		if p, ok := s.alias[x.Name]; ok {
 			return strings.Split(p, "."), true
 		}
+		if r, ok := s.locals[x.Name]; ok {
+			return []string{r}, true
+		}
 	case *ast.SelectorExpr:
 		if p, ok := w.chain(s, x.X); ok {
 			return append(append([]string{}, p...), x.Sel.Name), true
@@ -137,8 +151,11 @@ func (w *fedWalker) chain(s fedScope, e ast.Expr) ([]string, bool) {
 // accessing the next component.
 func (w *fedWalker) pointerPrefixes(path []string) []string {
 	var res []string
-	typ := "ServerMessage"
-	for i := 0; i+1 < len(path); i++ {
+	typ, start := fedRoot(path)
+	if start == 1 && strings.HasPrefix(path[0], "@*") && len(path) >= 2 {
+		res = append(res, path[0]) // the root itself is a pointer that may be nil
+	}
+	for i := start; i+1 < len(path); i++ {
 		ff, ok := w.types[typ][path[i]]
 		if !ok {
 			break
@@ -151,10 +168,18 @@ func (w *fedWalker) pointerPrefixes(path []string) []string {
 	return res
 }
 
+// fedRoot: the struct type a path starts in and the index of its first field component.
+func fedRoot(path []string) (string, int) {
+	if len(path) > 0 && strings.HasPrefix(path[0], "@") {
+		return strings.TrimLeft(path[0], "@*"), 1
+	}
+	return "ServerMessage", 0
+}
+
 func (w *fedWalker) fieldAt(path []string) (fedField, bool) {
-	typ := "ServerMessage"
+	typ, start := fedRoot(path)
 	var ff fedField
-	for _, p := range path {
+	for _, p := range path[start:] {
 		var ok bool
 		ff, ok = w.types[typ][p]
 		if !ok {
@@ -162,7 +187,7 @@ func (w *fedWalker) fieldAt(path []string) (fedField, bool) {
 		}
 		typ = ff.typ
 	}
-	return ff, len(path) > 0
+	return ff, len(path) > start
 }
 
 func (w *fedWalker) record(s fedScope, path string) {
@@ -294,6 +319,12 @@ func (w *fedWalker) expr(s fedScope, e ast.Expr) {
 				if ff, ok := w.fieldAt(p); ok && ff.slicePtr && w.calleeDerefsElems(x.Fun, i) {
 					w.record(s, strings.Join(p, ".")+"[]")
 				}
+				// a pointer sub-object handed to a helper of the same file that dereferences its parameter
+				if ff, ok := w.fieldAt(p); ok && ff.ptr && ff.typ != "" && !s.guarded[strings.Join(p, ".")] {
+					for _, sub := range w.calleeDerefsParam(x.Fun, i, ff.typ) {
+						w.record(s, strings.Join(p, ".")+sub)
+					}
+				}
 			}
 		}
 	case *ast.ParenExpr:
@@ -301,6 +332,16 @@ func (w *fedWalker) expr(s fedScope, e ast.Expr) {
 	case *ast.UnaryExpr:
 		w.expr(s, x.X)
 	case *ast.StarExpr:
+		// *x.A.B: the pointer member itself is dereferenced
+		if p, ok := w.chain(s, x.X); ok && len(p) > 0 {
+			if ff, ok := w.fieldAt(p); ok && ff.ptr {
+				for _, pre := range w.pointerPrefixes(p) {
+					w.record(s, pre)
+				}
+				w.record(s, strings.Join(p, "."))
+				return
+			}
+		}
 		w.expr(s, x.X)
 	case *ast.IndexExpr:
 		w.expr(s, x.X)
@@ -372,6 +413,69 @@ func (w *fedWalker) calleeDerefsElems(fun ast.Expr, idx int) bool {
 	return false
 }
 
+// calleeDerefsParam: the function called (same file) takes a `*typ` as its idx-th parameter; which paths below that
+// parameter does it dereference without a nil check?  "" stands for the parameter itself, ".F" for its pointer member F.
+func (w *fedWalker) calleeDerefsParam(fun ast.Expr, idx int, typ string) []string {
+	name := ""
+	switch f := fun.(type) {
+	case *ast.Ident:
+		name = f.Name
+	case *ast.SelectorExpr:
+		name = f.Sel.Name
+	}
+	if name == "" || w.file == nil || w.depth >= 3 {
+		return nil
+	}
+	var res []string
+	for _, d := range w.file.Decls {
+		fd, ok := d.(*ast.FuncDecl)
+		if !ok || fd.Name.Name != name || fd.Body == nil {
+			continue
+		}
+		var params []string
+		var ptypes []ast.Expr
+		for _, fl := range fd.Type.Params.List {
+			for _, n := range fl.Names {
+				params = append(params, n.Name)
+				ptypes = append(ptypes, fl.Type)
+			}
+		}
+		if idx >= len(params) {
+			continue
+		}
+		se, ok := ptypes[idx].(*ast.StarExpr)
+		if !ok || !isIdent(se.X, typ) {
+			continue
+		}
+		sub := &fedWalker{types: w.types, file: w.file, root: "", derefs: map[fedDeref]bool{}, depth: w.depth + 1}
+		sc := fedScope{guarded: map[string]bool{}, alias: map[string]string{}, elem: map[string]string{}, locals: map[string]string{}}
+		root := "@*" + typ
+		sc.locals[params[idx]] = root
+		sub.block(sc, fd.Body.List)
+		w.notes = append(w.notes, sub.notes...)
+		for d := range sub.derefs {
+			if d.path == root || strings.HasPrefix(d.path, root+".") {
+				res = append(res, d.path[len(root):])
+			}
+		}
+	}
+	sort.Strings(res)
+	return res
+}
+
+// fedStructType: T for the type expressions `T` and `*T` when T is a struct of the table.
+func (w *fedWalker) fedStructType(e ast.Expr) (string, bool) {
+	if se, ok := e.(*ast.StarExpr); ok {
+		e = se.X
+	}
+	if id, ok := e.(*ast.Ident); ok {
+		if _, known := w.types[id.Name]; known {
+			return id.Name, true
+		}
+	}
+	return "", false
+}
+
 func (w *fedWalker) block(s fedScope, stmts []ast.Stmt) fedScope {
 	for _, st := range stmts {
 		s = w.stmt(s, st)
@@ -401,11 +505,47 @@ func (w *fedWalker) stmt(s fedScope, st ast.Stmt) fedScope {
 						s.alias[id.Name] = strings.Join(p, ".")
 					}
 				}
+				// x := T{…} / x := &T{…}: a value of a known struct type built by the handler
+				rhs := x.Rhs[0]
+				if ue, ok := rhs.(*ast.UnaryExpr); ok && ue.Op == token.AND {
+					rhs = ue.X
+				}
+				if cl, ok := rhs.(*ast.CompositeLit); ok && id.Name != w.root {
+					if t, ok := w.fedStructType(cl.Type); ok {
+						s = s.clone()
+						s.locals[id.Name] = "@" + t
+					}
+				}
 			}
 		}
 	case *ast.IncDecStmt:
 		w.expr(s, x.X)
-	case *ast.DeclStmt, *ast.BranchStmt, *ast.EmptyStmt:
+	case *ast.DeclStmt:
+		// var details RoomErrorDetails — the target of a json.Unmarshal of a raw member
+		if gd, ok := x.Decl.(*ast.GenDecl); ok && gd.Tok == token.VAR {
+			for _, sp := range gd.Specs {
+				vs, ok := sp.(*ast.ValueSpec)
+				if !ok {
+					continue
+				}
+				for _, v := range vs.Values {
+					w.expr(s, v)
+				}
+				if vs.Type == nil {
+					continue
+				}
+				if _, isPtr := vs.Type.(*ast.StarExpr); isPtr {
+					continue
+				}
+				if t, ok := w.fedStructType(vs.Type); ok {
+					s = s.clone()
+					for _, n := range vs.Names {
+						s.locals[n.Name] = "@" + t
+					}
+				}
+			}
+		}
+	case *ast.BranchStmt, *ast.EmptyStmt:
 	case *ast.ReturnStmt:
 		for _, r := range x.Results {
 			w.expr(s, r)
@@ -923,7 +1063,7 @@ func genShapesFederation(c *ctx) *leanFile {
 		return true
 	}
 	empty := func() fedScope {
-		return fedScope{guarded: map[string]bool{}, alias: map[string]string{}, elem: map[string]string{}}
+		return fedScope{guarded: map[string]bool{}, alias: map[string]string{}, elem: map[string]string{}, locals: map[string]string{}}
 	}
 	okWalk := true
 	ws := empty()
@@ -1079,5 +1219,243 @@ func genShapesFederation(c *ctx) *leanFile {
 		}
 	}
 	l.boolean("closeRechecksConn", recheck, okCC, "closeConnection: `if withBye {…}` not found")
+
+	// ---- everything the read loop runs: the three handlers and the methods / functions of federation.go they call
+	reach := fedReachable(fed, []string{"processWelcome", "processHello", "processMessage"})
+	hUnchecked := 0
+	var loops []string
+	chanFields := map[string]bool{}
+	for name, ff := range fedChanFields(fed, "FederationClient") {
+		chanFields[name] = ff
+	}
+	for _, fd := range reach {
+		hUnchecked += fedUncheckedAsserts(fd.Body)
+		ast.Inspect(fd.Body, func(n ast.Node) bool {
+			switch x := n.(type) {
+			case *ast.ForStmt:
+				// termination depends on a condition re-evaluated against live state
+				loops = append(loops, fd.Name.Name+":for")
+			case *ast.RangeStmt:
+				if se, ok := x.X.(*ast.SelectorExpr); ok && chanFields[se.Sel.Name] {
+					loops = append(loops, fd.Name.Name+":range-chan")
+				}
+			}
+			return true
+		})
+	}
+	sort.Strings(loops)
+	l.nat("handlerUncheckedAsserts", int64(hUnchecked), len(reach) >= 3, "processWelcome / processHello / processMessage not found")
+	l.strList("unboundedLoops", loops, len(reach) >= 3, "processWelcome / processHello / processMessage not found")
+
+	// ---- the queue deferMessage appends to, and how processHello flushes it after a resume:
+	// `messages := c.<queue>; c.<queue> = nil` … `for _, m := range messages { …sendMessageLocked(m)… }` iterates over a
+	// snapshot; sendMessageLocked re-queues on a failed write, so a loop over the live queue would not terminate.
+	queue := ""
+	if dmf := findFunc(fed, "FederationClient", "deferMessage"); dmf != nil && dmf.Body != nil {
+		ast.Inspect(dmf.Body, func(n ast.Node) bool {
+			as, ok := n.(*ast.AssignStmt)
+			if !ok || len(as.Lhs) != 1 || len(as.Rhs) != 1 {
+				return true
+			}
+			call, ok := as.Rhs[0].(*ast.CallExpr)
+			if !ok || !isIdent(call.Fun, "append") || len(call.Args) < 2 {
+				return true
+			}
+			if se, ok := as.Lhs[0].(*ast.SelectorExpr); ok {
+				if a0, ok := call.Args[0].(*ast.SelectorExpr); ok && a0.Sel.Name == se.Sel.Name {
+					queue = se.Sel.Name
+				}
+			}
+			return true
+		})
+	}
+	l.str("pendingQueueField", queue, queue != "", "deferMessage: `c.<queue> = append(c.<queue>, message)` not found")
+	snapshot, flushFound := false, false
+	if ph := findFunc(fed, "FederationClient", "processHello"); ph != nil && ph.Body != nil && queue != "" {
+		// local := c.<queue> and c.<queue> = nil, by position
+		snapOf := map[string]token.Pos{}
+		var resets []token.Pos
+		ast.Inspect(ph.Body, func(n ast.Node) bool {
+			as, ok := n.(*ast.AssignStmt)
+			if !ok || len(as.Lhs) != 1 || len(as.Rhs) != 1 {
+				return true
+			}
+			if id, ok := as.Lhs[0].(*ast.Ident); ok && as.Tok == token.DEFINE {
+				if se, ok := as.Rhs[0].(*ast.SelectorExpr); ok && se.Sel.Name == queue {
+					snapOf[id.Name] = as.Pos()
+				}
+			}
+			if se, ok := as.Lhs[0].(*ast.SelectorExpr); ok && se.Sel.Name == queue && isIdent(as.Rhs[0], "nil") {
+				resets = append(resets, as.Pos())
+			}
+			return true
+		})
+		ast.Inspect(ph.Body, func(n ast.Node) bool {
+			var body *ast.BlockStmt
+			var rng *ast.RangeStmt
+			switch x := n.(type) {
+			case *ast.ForStmt:
+				body = x.Body
+			case *ast.RangeStmt:
+				body, rng = x.Body, x
+			default:
+				return true
+			}
+			if !fedContainsCall(body, "sendMessageLocked") && !fedContainsCall(body, "SendMessage") {
+				return true
+			}
+			flushFound = true
+			ok := false
+			if rng != nil {
+				if id, isId := rng.X.(*ast.Ident); isId {
+					if at, isSnap := snapOf[id.Name]; isSnap && at < rng.Pos() {
+						reset := false
+						for _, r := range resets {
+							reset = reset || (r > at && r < rng.Pos())
+						}
+						reassigned := false
+						ast.Inspect(body, func(m ast.Node) bool {
+							if as, isAs := m.(*ast.AssignStmt); isAs {
+								for _, lh := range as.Lhs {
+									reassigned = reassigned || isIdent(lh, id.Name)
+								}
+							}
+							return true
+						})
+						ok = reset && !reassigned
+					}
+				}
+			}
+			snapshot = ok
+			return true
+		})
+	}
+	l.boolean("flushOverSnapshot", snapshot, flushFound,
+		"processHello: no loop sending the pending messages (`for … { …sendMessageLocked(…)… }`) found")
 	return l
+}
+
+// fedReachable: the named methods of federation.go and, transitively, every function / method of the same file they call.
+func fedReachable(f *ast.File, roots []string) []*ast.FuncDecl {
+	if f == nil {
+		return nil
+	}
+	byName := map[string][]*ast.FuncDecl{}
+	for _, d := range f.Decls {
+		if fd, ok := d.(*ast.FuncDecl); ok && fd.Body != nil {
+			byName[fd.Name.Name] = append(byName[fd.Name.Name], fd)
+		}
+	}
+	seen := map[string]bool{}
+	var order []*ast.FuncDecl
+	var visit func(name string)
+	visit = func(name string) {
+		if seen[name] {
+			return
+		}
+		seen[name] = true
+		for _, fd := range byName[name] {
+			order = append(order, fd)
+			ast.Inspect(fd.Body, func(n ast.Node) bool {
+				call, ok := n.(*ast.CallExpr)
+				if !ok {
+					return true
+				}
+				switch fn := call.Fun.(type) {
+				case *ast.Ident:
+					if _, ok := byName[fn.Name]; ok {
+						visit(fn.Name)
+					}
+				case *ast.SelectorExpr:
+					// c.method(…) only: calls on other objects (c.session.SendMessage) leave the file
+					if _, isId := fn.X.(*ast.Ident); isId {
+						if _, ok := byName[fn.Sel.Name]; ok {
+							visit(fn.Sel.Name)
+						}
+					}
+				}
+				return true
+			})
+		}
+	}
+	for _, r := range roots {
+		if _, ok := byName[r]; ok {
+			visit(r)
+		}
+	}
+	return order
+}
+
+// fedChanFields: the channel-typed fields of a struct.
+func fedChanFields(f *ast.File, typ string) map[string]bool {
+	res := map[string]bool{}
+	if f == nil {
+		return res
+	}
+	for _, d := range f.Decls {
+		gd, ok := d.(*ast.GenDecl)
+		if !ok || gd.Tok != token.TYPE {
+			continue
+		}
+		for _, sp := range gd.Specs {
+			ts := sp.(*ast.TypeSpec)
+			st, ok := ts.Type.(*ast.StructType)
+			if !ok || ts.Name.Name != typ {
+				continue
+			}
+			for _, fl := range st.Fields.List {
+				if _, ok := fl.Type.(*ast.ChanType); ok {
+					for _, n := range fl.Names {
+						res[n.Name] = true
+					}
+				}
+			}
+		}
+	}
+	return res
+}
+
+// fedUncheckedAsserts counts the type assertions `m[k].(T)` / `v.(T)` not in comma-ok form / a type switch.
+func fedUncheckedAsserts(body *ast.BlockStmt) int {
+	if body == nil {
+		return 0
+	}
+	checked := map[*ast.TypeAssertExpr]bool{}
+	ast.Inspect(body, func(n ast.Node) bool {
+		switch x := n.(type) {
+		case *ast.AssignStmt:
+			if len(x.Lhs) == 2 && len(x.Rhs) == 1 {
+				if ta, ok := x.Rhs[0].(*ast.TypeAssertExpr); ok {
+					checked[ta] = true
+				}
+			}
+		case *ast.ValueSpec:
+			if len(x.Names) == 2 && len(x.Values) == 1 {
+				if ta, ok := x.Values[0].(*ast.TypeAssertExpr); ok {
+					checked[ta] = true
+				}
+			}
+		case *ast.TypeSwitchStmt:
+			ast.Inspect(x.Assign, func(m ast.Node) bool {
+				if ta, ok := m.(*ast.TypeAssertExpr); ok {
+					checked[ta] = true
+				}
+				return true
+			})
+		}
+		return true
+	})
+	n := 0
+	ast.Inspect(body, func(m ast.Node) bool {
+		if ta, ok := m.(*ast.TypeAssertExpr); ok && !checked[ta] && ta.Type != nil {
+			// entries of maps / interface values held in variables are what decoded JSON ends up in; values the client
+			// stored itself (`c.roomId.Load().(string)`) are not peer-controlled
+			switch ast.Unparen(ta.X).(type) {
+			case *ast.IndexExpr, *ast.Ident:
+				n++
+			}
+		}
+		return true
+	})
+	return n
 }
